@@ -248,11 +248,14 @@ func (b *sourcePathsBuilder) remapFileDescriptor(
 		return nil, false, err
 	}
 	isDirty = isDirty || changed
+	newFileDescriptor, changed := remapOptions(b, sourcePathsRemap, sourcePath, fileDescriptor)
+	isDirty = isDirty || changed
 	if !isDirty {
 		return fileDescriptor, false, nil
 	}
-
-	newFileDescriptor := maybeClone(fileDescriptor, b.options)
+	if !changed {
+		newFileDescriptor = maybeClone(fileDescriptor, b.options)
+	}
 	newFileDescriptor.MessageType = newMessages
 	newFileDescriptor.EnumType = newEnums
 	newFileDescriptor.Service = newServices
@@ -404,6 +407,17 @@ func (b *sourcePathsBuilder) remapDescriptor(
 			newDescriptor.Field = newFields
 			newDescriptor.OneofDecl = newOneofs
 		}
+		newExtensionRanges, changed, err := remapSlice(sourcePathsRemap, append(sourcePath, messageExtensionRangesTag), descriptor.ExtensionRange, b.remapExtensionRange, b.options)
+		if err != nil {
+			return nil, false, err
+		}
+		if changed && len(descriptor.ExtensionRange) > 0 {
+			isDirty = true
+			if newDescriptor == nil {
+				newDescriptor = maybeClone(descriptor, b.options)
+			}
+			newDescriptor.ExtensionRange = newExtensionRanges
+		}
 		if oneofsRemoved > 0 {
 			// Oneofs were removed: renumber the oneof indexes of the remaining fields.
 			if !b.options.mutateInPlace {
@@ -433,17 +447,33 @@ func (b *sourcePathsBuilder) remapDescriptor(
 		return nil, false, err
 	}
 	isDirty = isDirty || changed
+	if newDescriptor == nil {
+		newDescriptor, changed = remapOptions(b, sourcePathsRemap, sourcePath, descriptor)
+	} else {
+		// Already a clone of the descriptor, if not mutating in place.
+		newDescriptor, changed = remapOptions(b, sourcePathsRemap, sourcePath, newDescriptor)
+	}
+	isDirty = isDirty || changed
 
 	if !isDirty {
 		return descriptor, false, nil
 	}
-	if newDescriptor == nil {
+	if newDescriptor == descriptor {
 		newDescriptor = maybeClone(descriptor, b.options)
 	}
 	newDescriptor.Extension = newExtensions
 	newDescriptor.NestedType = newDescriptors
 	newDescriptor.EnumType = newEnums
 	return newDescriptor, true, nil
+}
+
+func (b *sourcePathsBuilder) remapExtensionRange(
+	sourcePathsRemap *sourcePathsRemapTrie,
+	sourcePath protoreflect.SourcePath,
+	extensionRange *descriptorpb.DescriptorProto_ExtensionRange,
+) (*descriptorpb.DescriptorProto_ExtensionRange, bool, error) {
+	newExtensionRange, changed := remapOptions(b, sourcePathsRemap, sourcePath, extensionRange)
+	return newExtensionRange, changed, nil
 }
 
 func (b *sourcePathsBuilder) remapEnum(
@@ -455,7 +485,28 @@ func (b *sourcePathsBuilder) remapEnum(
 		// The type is excluded, enum values cannot be excluded individually.
 		return nil, true, nil
 	}
-	return enum, false, nil
+	newEnum, isDirty := remapOptions(b, sourcePathsRemap, sourcePath, enum)
+	newValues, changed, err := remapSlice(sourcePathsRemap, append(sourcePath, enumValuesTag), enum.Value, b.remapEnumValue, b.options)
+	if err != nil {
+		return nil, false, err
+	}
+	if changed {
+		if !isDirty {
+			newEnum = maybeClone(enum, b.options)
+		}
+		newEnum.Value = newValues
+		isDirty = true
+	}
+	return newEnum, isDirty, nil
+}
+
+func (b *sourcePathsBuilder) remapEnumValue(
+	sourcePathsRemap *sourcePathsRemapTrie,
+	sourcePath protoreflect.SourcePath,
+	enumValue *descriptorpb.EnumValueDescriptorProto,
+) (*descriptorpb.EnumValueDescriptorProto, bool, error) {
+	newEnumValue, changed := remapOptions(b, sourcePathsRemap, sourcePath, enumValue)
+	return newEnumValue, changed, nil
 }
 
 func (b *sourcePathsBuilder) remapOneof(
@@ -467,7 +518,8 @@ func (b *sourcePathsBuilder) remapOneof(
 		// Oneofs are implicitly excluded when all of its fields types are excluded.
 		return nil, true, nil
 	}
-	return oneof, false, nil
+	newOneof, changed := remapOptions(b, sourcePathsRemap, sourcePath, oneof)
+	return newOneof, changed, nil
 }
 
 func (b *sourcePathsBuilder) remapService(
@@ -478,19 +530,20 @@ func (b *sourcePathsBuilder) remapService(
 	if !b.closure.hasType(service, b.options) {
 		return nil, true, nil
 	}
-	isDirty := false
+	newService, isDirty := remapOptions(b, sourcePathsRemap, sourcePath, service)
 	// Walk the service methods.
 	newMethods, changed, err := remapSlice(sourcePathsRemap, append(sourcePath, serviceMethodsTag), service.Method, b.remapMethod, b.options)
 	if err != nil {
 		return nil, false, err
 	}
-	isDirty = isDirty || changed
-	if !isDirty {
-		return service, false, nil
+	if changed {
+		if !isDirty {
+			newService = maybeClone(service, b.options)
+		}
+		newService.Method = newMethods
+		isDirty = true
 	}
-	newService := maybeClone(service, b.options)
-	newService.Method = newMethods
-	return newService, true, nil
+	return newService, isDirty, nil
 }
 
 func (b *sourcePathsBuilder) remapMethod(
@@ -508,7 +561,8 @@ func (b *sourcePathsBuilder) remapMethod(
 			return nil, true, nil
 		}
 	}
-	return method, false, nil
+	newMethod, changed := remapOptions(b, sourcePathsRemap, sourcePath, method)
+	return newMethod, changed, nil
 }
 
 func (b *sourcePathsBuilder) remapField(
@@ -549,7 +603,56 @@ func (b *sourcePathsBuilder) remapField(
 	default:
 		return nil, false, fmt.Errorf("unknown field type %d", field.GetType())
 	}
-	return field, false, nil
+	newField, changed := remapOptions(b, sourcePathsRemap, sourcePath, field)
+	return newField, changed, nil
+}
+
+// remapOptions removes the custom options whose definition is excluded from the
+// options of the descriptor. It returns the descriptor to use and whether it
+// was changed.
+func remapOptions[T proto.Message](
+	b *sourcePathsBuilder,
+	sourcePathsRemap *sourcePathsRemapTrie,
+	sourcePath protoreflect.SourcePath,
+	descriptor T,
+) (T, bool) {
+	message := descriptor.ProtoReflect()
+	optionsField := message.Descriptor().Fields().ByName("options")
+	if optionsField == nil || !message.Has(optionsField) {
+		return descriptor, false
+	}
+	options := message.Get(optionsField).Message()
+	var removedOptions []protoreflect.FieldDescriptor
+	optionsCount := 0
+	options.Range(func(fd protoreflect.FieldDescriptor, _ protoreflect.Value) bool {
+		optionsCount++
+		if fd.IsExtension() {
+			// A custom option is removed if its definition is excluded.
+			if info, ok := b.imageIndex.ByName[fd.FullName()]; ok && b.closure.elements[info.element] == inclusionModeExcluded {
+				removedOptions = append(removedOptions, fd)
+			}
+		}
+		return true
+	})
+	if len(removedOptions) == 0 {
+		return descriptor, false
+	}
+	optionsPath := append(sourcePath, int32(optionsField.Number()))
+	newDescriptor := maybeClone(descriptor, b.options)
+	if len(removedOptions) == optionsCount && len(options.GetUnknown()) == 0 {
+		// No options remain.
+		sourcePathsRemap.markDeleted(optionsPath)
+		newDescriptor.ProtoReflect().Clear(optionsField)
+		return newDescriptor, true
+	}
+	newOptions := maybeClone(options.Interface(), b.options).ProtoReflect()
+	newOptions.SetUnknown(options.GetUnknown())
+	for _, fd := range removedOptions {
+		sourcePathsRemap.markDeleted(append(optionsPath, int32(fd.Number())))
+		newOptions.Clear(fd)
+	}
+	newDescriptor.ProtoReflect().Set(optionsField, protoreflect.ValueOfMessage(newOptions))
+	return newDescriptor, true
 }
 
 func remapSlice[T any](
